@@ -172,6 +172,8 @@ def generate(rel_file: str, source: str, only_funcs=None):
 
 def _run(args):
     prop, rel_file, desc, mutated = args
+    if prop == "ALL":
+        return _run_all(rel_file, desc, mutated)
     from lcmsa import registry, selftest
     from lcmsa.__main__ import run_property
     from lcmsa.core import Program
@@ -191,6 +193,54 @@ def _run(args):
         return desc, "error", [f"{type(e).__name__}: {e}"]
     finally:
         shutil.rmtree(root, ignore_errors=True)
+
+
+def _run_all(rel_file, desc, mutated):
+    from lcmsa import registry, selftest
+    from lcmsa.__main__ import run_property
+    from lcmsa.core import Program
+    from lcmsa.report import load_known
+
+    root = selftest._scratch_root()  # noqa: SLF001
+    try:
+        selftest._copy_tree(root)  # noqa: SLF001
+        (root / "src" / "lcm" / rel_file).write_text(mutated)
+        prog = Program(root)
+        cache: dict = {}
+        fired, und = [], []
+        for prop in sorted(registry.PROPERTIES):
+            _st, res, _ = run_property(prop, "quick", 0, prog, cache, quiet=True, write=False)
+            known = {k.key for k in load_known() if k.prop == prop}
+            fired += [f"{prop}:{o.key}" for o in res.obs if o.status == REFUTED and o.key not in known]
+            und += [f"{prop}:{o.key}" for o in res.obs if o.status == UNDECIDED]
+        return desc, "killed" if fired else "undecided" if und else "survived", (fired or und)[:2]
+    except Exception as e:  # noqa: BLE001
+        return desc, "error", [f"{type(e).__name__}: {e}"]
+    finally:
+        shutil.rmtree(root, ignore_errors=True)
+
+
+def run_all(seed=0, limit=4000, jobs=None):
+    work = []
+    base = REPO / "src" / "lcm"
+    for p in sorted(base.rglob("*.py")):
+        rel = str(p.relative_to(base))
+        if rel.startswith("sandbox") or rel in ("_version.py", "_config.py"):
+            continue
+        for desc, mutated in generate(rel, p.read_text()):
+            work.append(("ALL", rel, desc, mutated))
+    rnd = random.Random(seed)
+    if len(work) > limit:
+        work = rnd.sample(work, limit)
+    jobs = jobs or min(16, os.cpu_count() or 4)
+    with ProcessPoolExecutor(max_workers=jobs) as ex:
+        results = list(ex.map(_run, work, chunksize=4))
+    summary = {"generated": len(results), "killed": 0, "undecided": 0, "survived": 0, "error": 0}
+    rows = []
+    for desc, outcome, keys in results:
+        summary[outcome] += 1
+        rows.append((outcome, desc, keys))
+    return summary, rows
 
 
 def run(prop: str, anchor_files: list[str], seed: int = 0, limit: int = 400, jobs: int | None = None):
@@ -252,6 +302,13 @@ if __name__ == "__main__":
     import sys
 
     prop = sys.argv[1]
+    if prop == "ALL":
+        summ, rows = run_all(limit=int(sys.argv[2]) if len(sys.argv) > 2 else 4000)
+        print(summ)
+        for outcome, desc, keys in sorted(rows):
+            if outcome != "killed":
+                print(f"  {outcome}: {desc} {keys if outcome != 'survived' else ''}")
+        sys.exit(0)
     s = run(prop, anchors_of(prop), limit=int(sys.argv[2]) if len(sys.argv) > 2 else 400)
     print({k: v for k, v in s.items() if k != "survivors"})
     for x in s["survivors"]:
